@@ -5,7 +5,7 @@ CONSTRAINT Bound
 CONSTRAINT ExportCase
 CHECK_DEADLOCK FALSE
 CONSTANTS NLay = 3
- NameSet = {2, 3, 5}
+ NameSet = {3, 4, 6}
  MaxDrops = 9
  Shapes = {"bb"}
  Export = FALSE
